@@ -62,12 +62,14 @@ def make_driver(cfg):
         else:
             Wm = vmp.load(SRCS[2], "windpyutils.parallel.workers")
             M = vmp.load(SRCS[1], "windpyutils.parallel.maps", extra_sub={"windpyutils.parallel.workers": Wm})
-            for k, (ikind, n) in enumerate(cfg.calls):
+            for k, call in enumerate(cfg.calls):
+                ikind, n = call[:2]
+                nworkers = call[2] if len(call) > 2 else cfg.workers      # the worker count may differ per call
                 data = data_of(k, n)
                 rec = {"data": data, "yielded": None, "finished": False, "cs": 1}
                 out["calls"].append(rec)
                 inp = vmp.LazyInput(data) if ikind == "lazy" else data
-                res = M.mul_p_map(f, inp, cfg.workers)
+                res = M.mul_p_map(f, inp, nworkers)
                 rec["yielded"] = list(res)
                 rec["finished"] = True
                 rec["leftover"] = leftovers(s)
@@ -150,6 +152,9 @@ def plan_for(tier):
     plan.append((Cfg("MP[w2,n1]", "mulp", 2, [("list", 1)]), b, 1, None))
     plan.append((Cfg("MP[w2,n0]", "mulp", 2, [("list", 0)]), b, 1, None))
     plan.append((Cfg("MP2[w2,n2;n2]", "mulp", 2, [("list", 2), ("list", 2)]), 2 if q else 3, 1, None))
+    # consecutive calls with different worker counts (fewer items than workers, then fewer workers)
+    plan.append((Cfg("MP2[w2:n1;w1:n2]", "mulp", 2, [("list", 1, 2), ("list", 2, 1)]), 2 if q else 3, 1, None))
+    plan.append((Cfg("MP3[w3:n1;w2:n2;w1:n1]", "mulp", 3, [("list", 1, 3), ("list", 2, 2), ("list", 1, 1)], cpu_count=3), 1 if q else 2, 1, None))
     plan.append((Cfg("MP[cpu,n2]", "mulp", -1, [("lazy", 2)], cpu_count=2), 2 if q else 3, 1, None))
     grid = []
     if not q:
